@@ -1,6 +1,7 @@
 import NmfuModel.Parse
 import NmfuModel.Explore
 import NmfuModel.Rt
+import NmfuModel.NoSpin
 open Nmfu
 
 def splitBar (s : String) : List String := Id.run do
@@ -176,7 +177,18 @@ def cmdWf (args : List String) : String :=
     match parseMachine m with
     | .ok M =>
       let c : RtCtx := { M := M, ro := parseRtOpts opts }
-      s!"leavesOK={M.leavesOK c.semOpts} endArmsOK={M.endArmsOK} safeCheck={c.safeCheck} states={M.states.size}"
+      s!"leavesOK={M.leavesOK c.semOpts} endArmsOK={M.endArmsOK} safeCheck={c.safeCheck} noSpin={c.noSpinCheck} yieldProgress={M.yieldProgressCheck c.semOpts} states={M.states.size}"
+    | .error e => s!"error parse {e}"
+  | _ => "error bad-args"
+
+def cmdSpin (args : List String) : String :=
+  match args with
+  | [opts, m] =>
+    match parseMachine m with
+    | .ok M =>
+      let c : RtCtx := { M := M, ro := parseRtOpts opts }
+      let ps := c.spinPaths
+      " ;; ".intercalate ((ps.take 5).map fun (s, x, es) => s!"state={s} sym={x} path={" ".intercalate (es.map fmtEv)}")
     | .error e => s!"error parse {e}"
   | _ => "error bad-args"
 
@@ -186,6 +198,7 @@ def handle (line : String) : String :=
   | "tree" :: args => cmdTree args
   | "rt" :: args => cmdRt args
   | "wf" :: args => cmdWf args
+  | "spin" :: args => cmdSpin args
   | "ping" :: _ => "pong"
   | _ => "error unknown-command"
 
